@@ -122,9 +122,13 @@ func runReportCmd(tt *testing.T, prop string, tape *simrt.Tape, keep bool) (out 
 		writeResults(path, "json", rs)
 		paths = append(paths, path)
 	}
-	mode := t.Choose(4) // 0 json + -buckets, 1 hist[spec] (old way), 2 hist + -buckets, 3 json without buckets
+	// 0 json + -buckets, 1 hist[spec] (old way), 2 hist + -buckets, 3 json without buckets, 4 both ways at once
+	// (another specification in the type: the flag is the one that counts)
+	mode := t.Choose(5)
 	typ, bucketsArg := "json", spec
 	switch mode {
+	case 4:
+		typ = "hist[0,1ms,7s]"
 	case 1:
 		typ, bucketsArg = "hist"+spec, ""
 	case 2:
